@@ -28,8 +28,8 @@ import txdbus.message as t_message
 
 PROPERTY = 'C05'
 LEVEL = 'exploration'
-QUICK_RUNS = 3000
-QUICK_BUDGET_S = 120
+QUICK_RUNS = 20000
+QUICK_BUDGET_S = 60
 THOROUGH_BUDGET_S = 900
 RULE = ('valid traffic of 3-20 messages with 1-4 corrupted frames (8 mutation kinds incl. 24 '
         'hostile signatures x array lengths 0 / small / 2^31) towards the real bus (2-3 peers) '
